@@ -96,7 +96,7 @@ def p1_p2(ctx, fx, I, B):
                 continue
             real.append((b, n, i, via, nm))
         copies = [(b, n, nm) for (b, n, i, via, nm) in real if via or (is_alias_call(n))]
-        hidden = [(b, n) for (b, n, i, via, nm) in real if n.d["term"].get("resolved") == imodel.DISC_NEW and not via]
+        hidden = [(b, n) for (b, n, i, via, nm) in real if n.d["term"].get("resolved") in I.disc_ctors and not via]
         visible = [(b, n) for (b, n, i, via, nm) in real if nm in ("insert", "push") and not via]
         others = [(b, n, nm) for (b, n, i, via, nm) in real if (b, n) not in hidden and (b, n) not in visible and not via and not is_alias_call(n)]
         if copies:
